@@ -134,6 +134,14 @@ class Queries(Part):
             q("goal_on_index", lambda: res.goal_on_index("c%d" % c, population_id=tag), ints, tag=tag, c=c)
             q("parameter_on_index", lambda: res.parameter_on_index("p%d" % p, population_id=tag), ints, tag=tag, p=p)
             q("pareto_front", lambda: res.pareto_front(population_id=None if tag == -1 else tag), ints, tag=tag)
+            q("goal_on_index_all", lambda: res.goal_on_index(population_id=tag), ints, tag=tag)
+            q("parameter_on_index_all", lambda: res.parameter_on_index(population_id=tag), ints, tag=tag)
+            q("pareto_individuals", lambda: res.pareto_individuals(population_id=None if tag == -1 else tag),
+              lambda out: [key.get(id(i), 0) for i in out], tag=tag)
+        q("population_ids", lambda: sorted(res.get_population_ids()), ints)
+        q("names", lambda: res.parameter_names() + res.goal_names() + [res.parameter_number(), res.goal_number(), res.parameter_index("p1"),
+                                                                       res.parameter_index("p2"), res.goal_index("c1"), res.goal_index("c2")],
+          lambda out: list(out))
         for c in (1, 2):
             q("find_optimum", lambda: res.find_optimum("c%d" % c), lambda out: key.get(id(out), 0), c=c)
         return trace
